@@ -858,6 +858,13 @@ func (m *model) assign(parent *mref, key string, dst reflect.Value, v mval) {
 		if m.df.ptrAllocOnFail && dst.Kind() == reflect.Ptr && dst.IsNil() {
 			dst.Set(reflect.New(dst.Type().Elem()))
 		}
+		if m.df.cacheNotValidated {
+			// the implementation detaches the cached wrapper first and re-attaches it to the element on
+			// failure - also a stale one, which thereby jumps to the current element
+			if c := parent.reg[key]; c != nil && c.loc.Type() == dst.Type() && !sameLoc(c.loc, dst) {
+				m.moveBlock(c, dst)
+			}
+		}
 		throwJS()
 	}
 	m.unregister(parent, key, dst)
